@@ -31,6 +31,8 @@ SYMBOLS = {
     "V1": "CCO>>CC=O",                       # rule-based
     "V2": "CC(=O)O.CCO>>CC(=O)OCC.O",        # input-balanced
     "V3": "CCBr>>N",                         # valid, declined (no common substructure); only used by the stale sources
+    # valid, input-balanced, written with every character class a file reader could mangle: / \\ # % @ + - = ( ) [ ]
+    "V4": "C/C=C\\C#N.[NH4+].N[C@@H](C)C(=O)[O-].C%10CC%10>>C/C=C\\C#N.[NH4+].N[C@@H](C)C(=O)[O-].C%10CC%10",
     "M1": "C(C)(>>CC",                       # unparsable SMILES
     "M2": "CCO",                             # no separator
     "M3": "CCO>CC>CC=O",                     # reagent style
@@ -43,15 +45,15 @@ SYMBOLS = {
     "M7b": NAN,                              # missing value: NaN
     "M7c": ABSENT,                           # missing value: key / cell absent
 }
-VALID = ("V1", "V2", "V3")
+VALID = ("V1", "V2", "V3", "V4")
 UNSOLVABLE = ("M1", "M2", "M3", "M4", "M7a", "M7b", "M7c", "M8", "M9")   # can never be solved
 
 SOURCE_SYMBOLS = {
     "str": ["V1", "V2", "M1", "M2", "M3", "M4", "M5", "M6", "M8", "M9"],
     "dict": ["V1", "V2", "M1", "M2", "M3", "M4", "M5", "M6", "M8", "M9", "M7a", "M7b", "M7c"],
-    "csv": ["V1", "V2", "M1", "M2", "M3", "M4", "M5", "M6", "M8", "M9", "M7c"],
-    "json": ["V1", "V2", "M1", "M2", "M3", "M4", "M5", "M6", "M8", "M9", "M7a", "M7c"],
-    "cli": ["V1", "V2", "M1", "M2", "M3", "M4", "M5", "M6", "M8", "M9"],
+    "csv": ["V1", "V2", "V4", "M1", "M2", "M3", "M4", "M5", "M6", "M8", "M9", "M7c"],
+    "json": ["V1", "V2", "V4", "M1", "M2", "M3", "M4", "M5", "M6", "M8", "M9", "M7a", "M7c"],
+    "cli": ["V1", "V2", "V4", "M1", "M2", "M3", "M4", "M5", "M6", "M8", "M9"],
     # dict rows that already carry an 'id' column with non-sequential values
     "dictid": ["V1", "V2", "M1", "M2", "M8", "M7a"],
     # non-default column names; the rows also carry a decoy 'reaction' / 'id' column
